@@ -132,7 +132,10 @@ instance (i : DIn) : Decidable i.WF := by unfold DIn.WF; exact inferInstance
 
 /-! ## scalable custom resources (not part of the plugin model's state) -/
 
-/-- the CRD lister (`crdKey`) and the custom-resource cache (`crdCache`) -/
+/-- the CRD lister (`crdKey`) and the custom-resource cache (`crdCache`).  `replicas` answers from API truth: the real
+    cache hands a lister out only after its informer's initial LIST has been stored
+    (`Generated.C03.crdListerHandedOutOnlyAfterSync`, Props `fact_crd_cache_synced_before_visible`), so there is no
+    "started but still empty" state to model -/
 structure CRs where
   scalable : String → Bool                          -- app type prefix ↦ a CRD with scale subresource exists
   replicas : String → String → String → Option Nat  -- app type prefix, namespace, name ↦ replicas (none = NotFound)
